@@ -76,6 +76,7 @@ class Ctx:
         self.base_order = []
         self.qbases = {}
         self.sincos = {}
+        self.canon_terms = {}
         self.atom_pairs = {}
         self.angle_alias = {}        # z3 var name -> z3 term it is congruent to mod 2pi
         self.pi = None
@@ -333,12 +334,30 @@ def _lift_real(x):
         xf = float(x)
         if math.isinf(xf) or math.isnan(xf):
             return None
-        return SymR(Fraction(xf))
+        return SymR(_float_to_fraction(xf))
     if isinstance(x, Fraction):
         return SymR(x)
     if isinstance(x, np.ndarray) and x.ndim == 0:
         return _lift_real(x.item())
     return None
+
+
+_F2Q = {}
+
+
+def _float_to_fraction(xf):
+    """exact rational of the double, except that a double within one ulp of a
+    rational with denominator <= 10^6 (0.1, 7/3., 1/3. ...) is read as that rational"""
+    hit = _F2Q.get(xf)
+    if hit is not None:
+        return hit
+    f = Fraction(xf)
+    if f.denominator > 10 ** 6:
+        g = f.limit_denominator(10 ** 6)
+        if g != 0 and abs(g - f) <= abs(f) * Fraction(1, 2 ** 52):
+            f = g
+    _F2Q[xf] = f
+    return f
 
 
 def _is_inf(x):
@@ -707,6 +726,8 @@ def _real_pow(base, e):
             return r if n > 0 else SymR(1) / r
         if ec == Fraction(1, 2):
             return sym_sqrt(base)
+        if ec == Fraction(1, 3):
+            return sym_cbrt(base)
         if ec == Fraction(-1, 2):
             return SymR(1) / sym_sqrt(base)
         if base.c is not None and base.c > 0:
@@ -833,6 +854,34 @@ def sym_sqrt(x):
     return out
 
 
+def sym_cbrt(x):
+    """real cube root: w with w^3 = x"""
+    x = _lift_real(x)
+    if x.c is not None:
+        n, d = abs(x.c.numerator), x.c.denominator
+        rn, rd = round(n ** (1 / 3)), round(d ** (1 / 3))
+        if rn ** 3 == n and rd ** 3 == d:
+            return SymR(Fraction(rn if x.c >= 0 else -rn, rd))
+    c = ctx()
+    try:
+        poly, _pr = _poly(x.term(), c, for_trig=False)
+        key = ('cbrt', tuple(sorted(poly.items())))
+    except Exception:
+        key = ('cbrt', x.term().get_id())
+    hit = c.bases.get(key)
+    if hit is not None:
+        return hit
+    w = c.fresh('cbrt')
+    c.add_axiom(w * w * w == x.term())
+    c.add_axiom(z3.Implies(x.term() > 0, w > 0))
+    c.add_axiom(z3.Implies(x.term() < 0, w < 0))
+    c.add_axiom(z3.Implies(x.term() == 0, w == 0))
+    c.defs[str(w)] = ('cbrt', x.term())
+    out = SymR(w)
+    c.bases[key] = out
+    return out
+
+
 def sym_mod(a, m):
     a, m = _lift_real(a), _lift_real(m)
     if a.c is not None and m.c is not None:
@@ -840,6 +889,13 @@ def sym_mod(a, m):
             raise ZeroDivisionError
         return SymR(a.c - m.c * (a.c // m.c))
     c = ctx()
+    try:
+        mkey = ('mod', canon_key(a.term(), c), canon_key(m.term(), c))
+    except Exception:
+        mkey = ('mod', a.term().get_id(), m.term().get_id())
+    hit = c.bases.get(mkey)
+    if hit is not None:
+        return hit
     _assume_defined(m.term() > 0, "mod: modulus > 0")
     q = c.fresh('mod')
     k = c.fresh('modk', 'int')
@@ -852,6 +908,7 @@ def sym_mod(a, m):
     if c.pi is not None:
         if z3.is_true(z3.simplify(m.term() == 2 * c.pi)):
             c.angle_alias[str(q)] = a.term()
+    c.bases[mkey] = SymR(q)
     return SymR(q)
 
 
@@ -904,78 +961,198 @@ def sym_log(x):
 # angle algebra
 # --------------------------------------------------------------------------
 
-def _poly(t, c, for_trig=True, cap=400):
-    """z3 real term -> polynomial normal form over primitive atoms:
-    ({monomial: Fraction}, {atom id: term}); a monomial is a sorted tuple of atom
-    ids (with repetition); () is the constant monomial."""
-    prims = {}
+def _padd(p, q, sign=1):
+    out = dict(p)
+    for m, v in q.items():
+        nv = out.get(m, 0) + sign * v
+        if nv == 0:
+            out.pop(m, None)
+        else:
+            out[m] = nv
+    return out
 
-    def const(v):
-        return {(): Fraction(v)} if v != 0 else {}
 
-    def padd(p, q, sign=1):
-        out = dict(p)
-        for m, v in q.items():
-            nv = out.get(m, 0) + sign * v
+def _pmul(p, q):
+    out = {}
+    for m1, v1 in p.items():
+        for m2, v2 in q.items():
+            m = tuple(sorted(m1 + m2))
+            nv = out.get(m, 0) + v1 * v2
             if nv == 0:
                 out.pop(m, None)
             else:
                 out[m] = nv
-        return out
+    return out
 
-    def pmul(p, q):
-        out = {}
-        for m1, v1 in p.items():
-            for m2, v2 in q.items():
-                m = tuple(sorted(m1 + m2))
-                nv = out.get(m, 0) + v1 * v2
-                if nv == 0:
-                    out.pop(m, None)
-                else:
-                    out[m] = nv
-        return out
+
+_ONE = {(): Fraction(1)}
+
+
+class _TooBig(Exception):
+    pass
+
+
+def _poly(t, c, for_trig=True, cap=400):
+    """z3 real term -> polynomial normal form over primitive atoms:
+    ({monomial: Fraction}, {atom id: term}); a monomial is a sorted tuple of atom
+    ids (with repetition); () is the constant monomial.  Quotients are brought to
+    a canonical N/D form (nested quotients flattened, common monomial factors
+    cancelled); a non-polynomial quotient becomes one canonical atom per numerator
+    monomial, so that additive structure is kept."""
+    prims = {}
 
     def prim(t):
         prims[t.get_id()] = t
         return {(t.get_id(),): Fraction(1)}
 
-    def walk(t):
+    def rat(t):
+        """(numerator poly, denominator poly)"""
         if z3.is_rational_value(t):
-            return const(Fraction(t.numerator_as_long(), t.denominator_as_long()))
+            v = Fraction(t.numerator_as_long(), t.denominator_as_long())
+            return ({(): v} if v != 0 else {}), _ONE
         if z3.is_int_value(t):
-            return const(t.as_long())
+            v = t.as_long()
+            return ({(): Fraction(v)} if v != 0 else {}), _ONE
+        if z3.is_app(t):
+            k = t.decl().kind()
+            ch = t.children()
+            if k in (z3.Z3_OP_ADD, z3.Z3_OP_SUB):
+                n, d = rat(ch[0])
+                for x in ch[1:]:
+                    n2, d2 = rat(x)
+                    sign = 1 if k == z3.Z3_OP_ADD else -1
+                    if d == d2:
+                        n = _padd(n, n2, sign)
+                    else:
+                        n = _padd(_pmul(n, d2), _pmul(n2, d), sign)
+                        d = _pmul(d, d2)
+                    if len(n) > cap or len(d) > cap:
+                        raise _TooBig()
+                return n, d
+            if k == z3.Z3_OP_UMINUS:
+                n, d = rat(ch[0])
+                return _padd({}, n, -1), d
+            if k == z3.Z3_OP_MUL:
+                n, d = _ONE, _ONE
+                for x in ch:
+                    n2, d2 = rat(x)
+                    n, d = _pmul(n, n2), _pmul(d, d2)
+                    if len(n) > cap or len(d) > cap:
+                        raise _TooBig()
+                return n, d
+            if k == z3.Z3_OP_DIV:
+                n1, d1 = rat(ch[0])
+                n2, d2 = rat(ch[1])
+                if not n2:
+                    return prim(t), _ONE
+                return _pmul(n1, d2), _pmul(d1, n2)
+            if k == z3.Z3_OP_POWER and (z3.is_int_value(ch[1]) or z3.is_rational_value(ch[1])):
+                e = Fraction(ch[1].numerator_as_long(), ch[1].denominator_as_long())
+                if e.denominator == 1 and 0 <= e <= 8:
+                    n, d = rat(ch[0])
+                    rn, rd = _ONE, _ONE
+                    for _ in range(int(e)):
+                        rn, rd = _pmul(rn, n), _pmul(rd, d)
+                    return rn, rd
+            if for_trig and k == z3.Z3_OP_UNINTERPRETED and not ch:
+                alias = c.angle_alias.get(str(t))
+                if alias is not None:
+                    return rat(alias)
+        return prim(t), _ONE
+
+    def addends(t, sign, out):
         if z3.is_app(t):
             k = t.decl().kind()
             ch = t.children()
             if k == z3.Z3_OP_ADD:
-                out = {}
                 for x in ch:
-                    out = padd(out, walk(x))
-                return out
+                    addends(x, sign, out)
+                return
             if k == z3.Z3_OP_SUB:
-                out = walk(ch[0])
+                addends(ch[0], sign, out)
                 for x in ch[1:]:
-                    out = padd(out, walk(x), -1)
-                return out
+                    addends(x, -sign, out)
+                return
             if k == z3.Z3_OP_UMINUS:
-                return padd({}, walk(ch[0]), -1)
-            if k == z3.Z3_OP_MUL:
-                out = {(): Fraction(1)}
-                for x in ch:
-                    out = pmul(out, walk(x))
-                    if len(out) > cap:
-                        return prim(t)
-                return out
-            if k == z3.Z3_OP_DIV and (z3.is_rational_value(ch[1]) or z3.is_int_value(ch[1])):
-                d = Fraction(ch[1].numerator_as_long(), ch[1].denominator_as_long())
-                return {m: v / d for m, v in walk(ch[0]).items()}
+                addends(ch[0], -sign, out)
+                return
             if for_trig and k == z3.Z3_OP_UNINTERPRETED and not ch:
                 alias = c.angle_alias.get(str(t))
                 if alias is not None:
-                    return walk(alias)
-        return prim(t)
+                    addends(alias, sign, out)
+                    return
+        out.append((sign, t))
 
-    return walk(z3.simplify(t)), prims
+    poly = {}
+    parts = []
+    addends(z3.simplify(t), 1, parts)
+    for sign, term in parts:
+        try:
+            n, d = rat(term)
+        except _TooBig:
+            poly = _padd(poly, prim(term), sign)
+            continue
+        n, d = _cancel_monomial_factors(n, d)
+        if not n:
+            continue
+        if len(d) == 1 and () in d:
+            poly = _padd(poly, {m: v / d[()] for m, v in n.items()}, sign)
+            continue
+        # non-polynomial: one canonical atom (monomial / denominator) per numerator monomial
+        for m, v in n.items():
+            mn, md = _cancel_monomial_factors({m: Fraction(1)}, d)
+            lead = md[min(md)]
+            md = {k2: v2 / lead for k2, v2 in md.items()}
+            v = v / lead
+            key = ('rat', tuple(sorted(mn.items())), tuple(sorted(md.items())))
+            rep = c.canon_terms.get(key)
+            if rep is None:
+                rep = _poly_term(mn, prims) / _poly_term(md, prims)
+                c.canon_terms[key] = rep
+            poly = _padd(poly, prim(rep), sign * v)
+    return poly, prims
+
+
+def _cancel_monomial_factors(pn, pd):
+    """divide numerator and denominator polynomials by the primitive atoms common to every monomial"""
+    if not pn or not pd:
+        return pn, pd
+    monos = list(pn) + list(pd)
+    common = list(monos[0])
+    for m in monos[1:]:
+        mm = list(m)
+        keep = []
+        for a in common:
+            if a in mm:
+                mm.remove(a)
+                keep.append(a)
+        common = keep
+        if not common:
+            return pn, pd
+
+    def strip(m):
+        mm = list(m)
+        for a in common:
+            mm.remove(a)
+        return tuple(mm)
+    return {strip(m): v for m, v in pn.items()}, {strip(m): v for m, v in pd.items()}
+
+
+def _poly_term(poly, prims):
+    """deterministic z3 term of a polynomial in normal form"""
+    t = None
+    for mono, coef in sorted(poly.items()):
+        mt = None
+        for i in mono:
+            mt = prims[i] if mt is None else mt * prims[i]
+        term = _q(coef) if mt is None else (mt if coef == 1 else _q(coef) * mt)
+        t = term if t is None else t + term
+    return t if t is not None else z3.RealVal(0)
+
+
+def canon_key(term, c):
+    poly, _prims = _poly(term, c, for_trig=False)
+    return tuple(sorted(_reduce_trig(poly, c).items()))
 
 
 def _reduce_trig(poly, c):
@@ -1172,7 +1349,10 @@ def sym_arctan2(y, x):
             return c.get_pi()
         if x.c == 0:
             return c.get_pi() / 2 if y.c > 0 else -c.get_pi() / 2
-    key = ('atan2', y.term().get_id(), x.term().get_id())
+    try:
+        key = ('atan2', canon_key(y.term(), c), canon_key(x.term(), c))
+    except Exception:
+        key = ('atan2', y.term().get_id(), x.term().get_id())
     hit = c.bases.get(key)
     if hit is not None:
         return hit
